@@ -16,6 +16,9 @@ Inductive c01_case :=
 | ExpectCase (ans : continue_answer) (body_arrived reused : bool)
 (* everything an origin read off one connection, and the requests (method, target, body) it made of it *)
 | SeqCase (raw : bytes) (views : list (bytes * (bytes * bytes)))
+(* one Request executed several times: the header maps and cookie lists before the first execution,
+   and the Cookie field value the origin saw on every attempt (retry attempts of one execution) *)
+| AttemptCase (rh ch : list kv) (rck cck : list (bytes * bytes)) (cookie_seen : list bytes)
 with req_obs :=
 | OErr                                                      (* the call failed *)
 | OH1 (head : bytes) (chunked body_same no_extra : bool)    (* raw head; body compared by the harness *)
@@ -80,6 +83,10 @@ Definition c01_check (c : c01_case) : bool :=
   | ExpectCase ans arrived reused =>
       Bool.eqb (expect_sends_body false ans) arrived &&
       (negb reused || conn_reusable_after false ans)
+  | AttemptCase rh ch rck cck seen =>
+      let st0 := mkRs rh rck in
+      list_eqb (fun k o => bytes_eqb (header_get (attempt_header (after_attempts ch cck k st0)) (bs "Cookie")) o)
+               (seq 0 (length seen)) seen
   | SeqCase raw views =>
       match observe_seq (length views) raw with
       | Some (vs, rest) =>
